@@ -17,11 +17,16 @@ pub struct DCase {
     pub limit: usize,
     pub exponent_limit: usize,
     pub show_continuation: bool,
+    /// multiply numerator and denominator by this (possibly negative) integer and hand the pair to the
+    /// library through its JSON decoder, which neither reduces nor normalises the sign: the same number
+    /// in another representation (0 = construct with `Rational::new`)
+    #[serde(default)]
+    pub raw_scale: i32,
 }
 
 impl DCase {
     fn new(v: &BigRational, limit: usize, e: usize, c: bool) -> DCase {
-        DCase { numer: v.numer().to_string(), denom: v.denom().to_string(), limit, exponent_limit: e, show_continuation: c }
+        DCase { numer: v.numer().to_string(), denom: v.denom().to_string(), limit, exponent_limit: e, show_continuation: c, raw_scale: 0 }
     }
     fn value(&self) -> BigRational {
         BigRational::new(self.numer.parse().unwrap(), self.denom.parse().unwrap())
@@ -41,9 +46,18 @@ fn terminating(v: &BigRational) -> bool {
 
 pub fn check(c: &DCase) -> CaseReport {
     let x = c.value();
-    let key = format!("{}/{}@{},{},{}", c.numer, c.denom, c.limit, c.exponent_limit, c.show_continuation);
+    let key = format!("{}/{}@{},{},{}{}", c.numer, c.denom, c.limit, c.exponent_limit, c.show_continuation, if c.raw_scale != 0 { format!(" x{}", c.raw_scale) } else { String::new() });
     let text = match guarded(&key, || {
-        let r = anything::Rational::new(x.numer().clone(), x.denom().clone());
+        let r = if c.raw_scale == 0 {
+            anything::Rational::new(x.numer().clone(), x.denom().clone())
+        } else {
+            let k = BigInt::from(c.raw_scale);
+            let text = serde_json::to_string(&(x.numer() * &k, x.denom() * &k)).expect("pair of big integers as JSON");
+            match serde_json::from_str::<anything::Rational>(&text) {
+                Ok(r) => r,
+                Err(e) => return format!("\u{0}DECODE-FAILED\u{0}{}\u{0}{}", text, e),
+            }
+        };
         let mut spec = DisplaySpec::default();
         spec.limit = c.limit;
         spec.exponent_limit = c.exponent_limit;
@@ -57,6 +71,9 @@ pub fn check(c: &DCase) -> CaseReport {
         }
         first
     }) {
+        Ok(t) if t.starts_with("\u{0}DECODE-FAILED") => {
+            return CaseReport::fail(key, "rational-json-does-not-decode", json!({"case": c, "detail": t.replace('\u{0}', " | ")}));
+        }
         Ok(t) if t.starts_with("\u{0}FORMATTED-TWICE") => {
             let parts: Vec<&str> = t.split('\u{0}').collect();
             return CaseReport::fail(key, "same-formatter-prints-differently-the-second-time", json!({"case": c, "first": parts.get(2), "second": parts.get(3)}));
@@ -230,7 +247,7 @@ fn digit_runs() -> impl Strategy<Value = DCase> {
 const SPECS: [(usize, usize); 12] = [(6, 8), (12, 12), (1, 1), (1, 15), (20, 1), (20, 15), (3, 4), (8, 2), (2, 9), (5, 5), (10, 3), (15, 7)];
 
 pub fn run_check(ctx: &Ctx) {
-    ctx.set_rule("values: exhaustive grid n/d (n in -N..N, d in 1..D), random terminating and repeating rationals 1e-45..1e45, and budget-boundary values built from the spec (exactly L, L+1.. significant digits; integer parts with E-1, E, E+1 digits; zero tails; all nines), and decimal expansions with a run of 15-45 equal digits (nines, zeros) at any position relative to the point, also divided by 3, 7, 11, 13, 64, 125; specs: limit 1..20 x exponent threshold 1..15 x continuation on/off (and a class with limits up to 45 and thresholds 16..64); each formatter object is printed twice and must give the same text; oracle: text parses as -?d[.d][…][e-?N], sign matches, |printed| <= |value| < |printed| + one unit in the last place, mark present iff something non-zero was cut; non-trivial = digits were cut or the scientific path was taken; distinct by (value, spec)");
+    ctx.set_rule("values: exhaustive grid n/d (n in -N..N, d in 1..D), random terminating and repeating rationals 1e-45..1e45, and budget-boundary values built from the spec (exactly L, L+1.. significant digits; integer parts with E-1, E, E+1 digits; zero tails; all nines), and decimal expansions with a run of 15-45 equal digits (nines, zeros) at any position relative to the point, also divided by 3, 7, 11, 13, 64, 125; specs: limit 1..20 x exponent threshold 1..15 x continuation on/off (and a class with limits up to 45 and thresholds 16..64); each formatter object is printed twice and must give the same text; a class of values arrives through the JSON decoder unreduced and with the sign in the denominator; oracle: text parses as -?d[.d][…][e-?N], sign matches, |printed| <= |value| < |printed| + one unit in the last place, mark present iff something non-zero was cut; non-trivial = digits were cut or the scientific path was taken; distinct by (value, spec)");
     let corpus: Vec<(String, DCase)> = load_corpus("C08");
     let cases: Vec<DCase> = corpus.into_iter().map(|c| c.1).collect();
     ctx.run_list("corpus", &cases, check, |c| to_json(c));
@@ -258,6 +275,20 @@ pub fn run_check(ctx: &Ctx) {
     let n = ctx.tier.pick(1_500_000u64, 20_000_000);
     ctx.run_gen("boundary", boundary, n, check, |c| to_json(c));
     ctx.run_gen("digit-runs", digit_runs, n / 6, check, |c| to_json(c));
+    // the same numbers as the JSON decoder hands them over: unreduced, possibly with the sign in the denominator
+    ctx.run_gen(
+        "decoded-representations",
+        || {
+            (prop_oneof![rational(), boundary().prop_map(|c| c.value())], 1usize..=20, 1usize..=15, prop::bool::weighted(0.85), prop_oneof![Just(-1i32), Just(-3), Just(2), Just(10), Just(-1000)]).prop_map(|(v, l, e, c, k)| {
+                let mut d = DCase::new(&v, l, e, c);
+                d.raw_scale = k;
+                d
+            })
+        },
+        n / 6,
+        check,
+        |c| to_json(c),
+    );
     // the statement says "every display precision": limits and thresholds beyond the quantifier's 20 / 15
     // (plain notation asked for everything: thresholds up to 64) on the same value families
     ctx.run_gen(
